@@ -24,28 +24,25 @@ MUTS = {
  'M16-resolve-forgets-some-shorteners': ('ural/should_resolve.py', 'for domain in SHORTENER_DOMAINS + SHOULD_RESOLVE_DOMAINS:', 'for domain in SHORTENER_DOMAINS[:700] + SHORTENER_DOMAINS[710:] + SHOULD_RESOLVE_DOMAINS:'),
  'M17-l-path-no-end-anchor': ('ural/is_shortened_url.py', 'r"^/[0-9a-zA-Z]{3,}/?$"', 'r"^/[0-9a-zA-Z]{3,}/?"'),
  'M18-html-ext-of-host-when-no-path': ('ural/could_be_html.py', '    path = safe_urlsplit(url).path\n', '    parsed = safe_urlsplit(url)\n    path = parsed.path or parsed.netloc\n'),
+ 'M19-tw-drop-ascii-flag': ('ural/twitter.py', 'r"(?:^|\\.)(?:twitter|x)\\.com$", re.I | ASCII)', 'r"(?:^|\\.)(?:twitter|x)\\.com$", re.I)'),
+ 'M20-fb-drop-ascii-flag': ('ural/facebook.py', 'r"(?:^|\\.)(?:facebook\\.[^.]+|fb\\.me)$", re.I | ASCII)', 'r"(?:^|\\.)(?:facebook\\.[^.]+|fb\\.me)$", re.I)'),
  # harmless edits: must be held
  'R1-tw-regex-refactored': ('ural/twitter.py', 'r"(?:^|\\.)(?:twitter|x)\\.com$"', 'r"(?:^|\\.)(?:twitter\\.com|x\\.com)$"'),
  'R2-tg-new-domain': ('ural/telegram.py', 'r"(?:^|\\.)(?:telegram\\.(?:org|me)|t\\.me)$"', 'r"(?:^|\\.)(?:telegram\\.(?:org|me)|t\\.me|telesco\\.pe)$"'),
  'R3-new-shortener': ('ural/is_shortened_url.py', 'SHORTENER_DOMAINS = [\n', 'SHORTENER_DOMAINS = [\n    "example-short.io",\n'),
  'R4-new-html-extension': ('ural/could_be_html.py', '    ".bin",\n', '    ".bin",\n    ".cfm",\n'),
- 'R5-ascii-casefold-fix': None,  # notes/fixes/c18-ascii-casefold.diff: held, KF-C18-1 no longer reported
 }
 def sh(cmd, **kw):
     return subprocess.run(cmd, shell=True, stdout=subprocess.PIPE, stderr=subprocess.STDOUT, text=True, **kw)
 names = sys.argv[1:] or list(MUTS)
 for name in names:
     sh('git -C %s checkout -q -- .' % SCR)
-    if MUTS[name] is None:
-        r = sh('cd %s && git apply %s/notes/fixes/c18-ascii-casefold.diff' % (SCR, WT))
-        if r.returncode: print(name, 'PATCH DOES NOT APPLY', r.stdout); continue
-    else:
-        f, old, new = MUTS[name]
-        p = os.path.join(SCR, f)
-        src = open(p).read()
-        if src.count(old) != 1:
-            print(name, 'PATTERN FOUND %d TIMES' % src.count(old)); continue
-        open(p, 'w').write(src.replace(old, new, 1))
+    f, old, new = MUTS[name]
+    p = os.path.join(SCR, f)
+    src = open(p).read()
+    if src.count(old) != 1:
+        print(name, 'PATTERN FOUND %d TIMES' % src.count(old)); continue
+    open(p, 'w').write(src.replace(old, new, 1))
     t = sh('cd %s && /venv/bin/python -m pytest -q -p no:cacheprovider 2>&1 | tail -1' % SCR).stdout.strip()
     r = sh('cd %s && URAL_REPO=%s ./check C18 2>&1 | grep -v WARN' % (WT, SCR))
     lines = r.stdout.strip().split('\n')
